@@ -180,8 +180,9 @@ impl Context {
             //# H4-the-event-of-the-task-is-raised-with-the-state-it-has [C06,C16]
             final(h).task_events.len() > old(h).task_events.len() && final(h).task_events[old(h).task_events.len() as int] == (task.id@, old(h).st(task.id@)),
 //@@ end
-//@@ extract file=acts/src/scheduler/context.rs in="impl Context" item="fn emit_error" name=Context::emit_error props=C02,C06
+//@@ extract file=acts/src/scheduler/context.rs in="impl Context" item="fn emit_error" name=Context::emit_error props=C02,C06,C03
 //@@ opt attr="#[verifier::exec_allows_no_decreases_clause]"
+//@@ rw R7 `$V:chain . extend_from_slice ( & $E )` => `vec_extend(&mut $V, $E)`
 //@@ spec
         requires old(h).wf()
         ensures
@@ -192,6 +193,108 @@ impl Context {
             //# E3-a-failed-task-always-raises-its-event-whatever-its-kind-the-catch-rules-are-consulted-from-that-event [C06]
             old(h).st(old(h).cur) is Error ==> final(h).task_events.len() > old(h).task_events.len()
                 && final(h).task_events[old(h).task_events.len() as int] == (old(h).cur, old(h).st(old(h).cur)),
+//@@ proof after=emit_task#1
+            let ghost h1 = *h;
+//@@ proof after=parent#1
+                        let ghost h2 = *h;
+                        let ghost mut sib_done: bool = false;
+//@@ proof after=siblings#1
+                        proof {
+                            reveal(Heap::wf);
+                            assert(*h == h2);
+                            assert(Some(parent.id@) == parent_tid(task.id@));
+                            assert forall|i: int| 0 <= i < open@.len() implies h.tasks[(#[trigger] open@[i]).id@].seq > h.tasks[parent.id@].seq by {
+                                assert(h.has(open@[i].id@) && h.tasks[open@[i].id@].prev == Some(parent.id@));
+                            }
+                            assert(tids(open@).to_set() == children_of(h2, parent.id@).remove(task.id@));
+                            assert(h2.st(task.id@) is Error);
+                        }
+//@@ loop 1
+        invariant
+            //# closing-level-by-level-what-is-open-beside-the-failed-task (the failed task and the parent it is about to fail stay as they are)
+            tasks_ok(*h, open@) && fwd(h1, *h) && fwd(h2, *h) && h.cur == old(h).cur && task.id@ == old(h).cur && wf_task(*h, *task) && wf_task(*h, *parent)
+                && h.tasks[parent.id@] == h2.tasks[parent.id@] && h.tasks[task.id@] == h2.tasks[task.id@] && h2.has(parent.id@) && h2.has(task.id@) && h2.wf() && h2.st(task.id@) is Error
+                && (forall|i: int| 0 <= i < open@.len() ==> h.tasks[(#[trigger] open@[i]).id@].seq > h.tasks[parent.id@].seq)
+                && (!sib_done ==> tids(open@).to_set() == children_of(h2, parent.id@).remove(task.id@))
+                && (sib_done ==> forall|c: Tid| children_of(h2, parent.id@).contains(c) && c != task.id@ ==> st_terminal(#[trigger] h.st(c))),
+//@@ loop 2
+        invariant
+            //# one-level
+            tasks_ok(*h, __v2@) && tasks_ok(*h, nexts@) && fwd(h1, *h) && fwd(h2, *h) && h.cur == old(h).cur && task.id@ == old(h).cur && wf_task(*h, *task) && wf_task(*h, *parent)
+                && h.tasks[parent.id@] == h2.tasks[parent.id@] && h.tasks[task.id@] == h2.tasks[task.id@] && h2.has(parent.id@) && h2.has(task.id@) && h2.wf() && h2.st(task.id@) is Error
+                && (forall|i: int| 0 <= i < __v2@.len() ==> h.tasks[(#[trigger] __v2@[i]).id@].seq > h.tasks[parent.id@].seq)
+                && (forall|i: int| 0 <= i < nexts@.len() ==> h.tasks[(#[trigger] nexts@[i]).id@].seq > h.tasks[parent.id@].seq)
+                && (forall|j: int| 0 <= j < __i2 ==> st_terminal(h.st((#[trigger] __v2@[j]).id@)))
+                && (!sib_done ==> tids(__v2@).to_set() == children_of(h2, parent.id@).remove(task.id@))
+                && (sib_done ==> forall|c: Tid| children_of(h2, parent.id@).contains(c) && c != task.id@ ==> st_terminal(#[trigger] h.st(c))),
+//@@ proof after=vec_extend#1
+                                proof {
+                                    reveal(Heap::wf);
+                                    assert forall|i: int| 0 <= i < nexts@.len() implies h.has((#[trigger] nexts@[i]).id@) && h.tasks[nexts@[i].id@].node == nexts@[i].node && nexts@[i].node.level < 0x4000_0000
+                                        && h.tasks[nexts@[i].id@].seq > h.tasks[parent.id@].seq by {
+                                        assert(h.has(t.id@));
+                                    }
+                                }
+//@@ proof before=set_state#1
+                                let ghost hb = *h;
+                                proof {
+                                    assert(t.id@ == __v2@[__i2 as int - 1].id@);
+                                    assert(hb.tasks[t.id@].seq > hb.tasks[parent.id@].seq);
+                                    assert(t.id@ != parent.id@);
+                                    assert(t.id@ != task.id@);
+                                }
+//@@ proof after=emit_task#2
+                                proof {
+                                    assert forall|x: Tid| hb.has(x) && x != t.id@ implies h.has(x) && #[trigger] h.tasks[x] == hb.tasks[x] by {}
+                                    assert(st_terminal(h.st(t.id@)));
+                                    assert(h.tasks[t.id@].seq == hb.tasks[t.id@].seq);
+                                    assert forall|j: int| 0 <= j < __i2 implies st_terminal(h.st((#[trigger] __v2@[j]).id@)) by {
+                                        if __v2@[j].id@ != t.id@ { assert(h.tasks[__v2@[j].id@] == hb.tasks[__v2@[j].id@]); }
+                                    }
+                                    assert forall|i: int| 0 <= i < __v2@.len() implies h.tasks[(#[trigger] __v2@[i]).id@].seq > h.tasks[parent.id@].seq by {
+                                        if __v2@[i].id@ != t.id@ { assert(h.tasks[__v2@[i].id@] == hb.tasks[__v2@[i].id@]); }
+                                    }
+                                    assert forall|i: int| 0 <= i < nexts@.len() implies h.tasks[(#[trigger] nexts@[i]).id@].seq > h.tasks[parent.id@].seq by {
+                                        if nexts@[i].id@ != t.id@ { assert(h.tasks[nexts@[i].id@] == hb.tasks[nexts@[i].id@]); }
+                                    }
+                                    if sib_done {
+                                        assert forall|c: Tid| children_of(h2, parent.id@).contains(c) && c != task.id@ implies st_terminal(#[trigger] h.st(c)) by {
+                                            assert(h2.tasks.dom().contains(c));
+                                            assert(h2.has(c));
+                                            assert(fwd(h2, hb));
+                                            assert(hb.has(c));
+                                            assert(st_terminal(hb.st(c)));
+                                            if c != t.id@ { assert(h.tasks[c] == hb.tasks[c]); }
+                                        }
+                                    }
+                                }
+//@@ proof at=afterloop2
+                            proof {
+                                if !sib_done {
+                                    assert forall|c: Tid| children_of(h2, parent.id@).contains(c) && c != task.id@ implies st_terminal(#[trigger] h.st(c)) by {
+                                        assert(tids(__v2@).to_set().contains(c));
+                                        let j = choose|j: int| 0 <= j < tids(__v2@).len() && tids(__v2@)[j] == c;
+                                        assert(__v2@[j].id@ == c);
+                                    }
+                                }
+                                sib_done = true;
+                            }
+//@@ proof before=set_err#1
+                        proof {
+                            //# H5-when-an-error-goes-on-to-the-parent-nothing-stays-open-beside-the-failed-task [C03]
+                            assert(forall|c: Tid| children_of(h2, parent.id@).contains(c) && c != task.id@ ==> st_terminal(#[trigger] h.st(c))) by {
+                                if !sib_done {
+                                    assert(open@.len() == 0);
+                                    assert forall|c: Tid| children_of(h2, parent.id@).contains(c) && c != task.id@ implies st_terminal(#[trigger] h.st(c)) by {
+                                        assert(children_of(h2, parent.id@).remove(task.id@).contains(c));
+                                        assert(tids(open@).to_set().contains(c));
+                                        assert(tids(open@).contains(c));
+                                        let j = choose|j: int| 0 <= j < tids(open@).len() && tids(open@)[j] == c;
+                                        assert(false);
+                                    }
+                                }
+                            }
+                        }
 //@@ end
 //@@ extract file=acts/src/scheduler/context.rs in="impl Context" item="fn dispatch_acts" name=Context::dispatch_acts props=C16
 //@@ opt rewrites=R1,R2,R3,R5,R13,R22 noheap=push
